@@ -107,6 +107,7 @@ func vpC35NewSnapshot(t *rapid.T, sh *vpC35Shared, serial int, node crypto.Hash,
 		hs = append(hs, ver.PayloadHash())
 	}
 	snap.Hash = snap.PayloadHash()
+	vpSSortHashes(hs) // the snapshot encoding lists its transactions in canonical (sorted) order
 	return &common.SnapshotWithTopologicalOrder{Snapshot: snap, TopologicalOrder: pos}, hs
 }
 
@@ -162,15 +163,23 @@ func TestVP_C35_storage_cursor(t *testing.T) {
 		var trace []string
 		cls := map[string]bool{}
 		gapPos := func() (uint64, bool) {
-			for i := len(m.sorted) - 1; i > 0; i-- {
+			var gaps [][2]uint64
+			for i := 1; i < len(m.sorted); i++ {
 				if m.sorted[i].Pos-m.sorted[i-1].Pos > 1 {
-					lo, hi := m.sorted[i-1].Pos+1, m.sorted[i].Pos-1
-					if rapid.IntRange(0, 2).Draw(t, "gap_pick") == 0 || i == 1 {
-						return rapid.Uint64Range(lo, hi).Draw(t, "gap_pos"), true
-					}
+					gaps = append(gaps, [2]uint64{m.sorted[i-1].Pos + 1, m.sorted[i].Pos - 1})
 				}
 			}
-			return 0, false
+			if len(gaps) == 0 {
+				return 0, false
+			}
+			g := gaps[rapid.IntRange(0, len(gaps)-1).Draw(t, "gap_idx")]
+			switch rapid.IntRange(0, 2).Draw(t, "gap_end") {
+			case 0:
+				return g[0], true
+			case 1:
+				return g[1], true
+			}
+			return rapid.Uint64Range(g[0], g[1]).Draw(t, "gap_pos"), true
 		}
 		t.Repeat(map[string]func(*rapid.T){
 			"write": func(t *rapid.T) {
@@ -178,7 +187,7 @@ func TestVP_C35_storage_cursor(t *testing.T) {
 				ts++
 				node := sh.nodes[rapid.IntRange(0, len(sh.nodes)-1).Draw(t, "chain")]
 				last := m.last().Pos
-				kind := rapid.SampledFrom([]string{"next", "next", "next", "jump", "gap", "far", "max", "occupied", "duplicate"}).Draw(t, "pos_kind")
+				kind := rapid.SampledFrom([]string{"next", "next", "next", "next", "next", "next", "jump", "jump", "gap", "gap", "far", "max", "occupied", "occupied", "duplicate"}).Draw(t, "pos_kind")
 				var pos uint64
 				switch kind {
 				case "next":
@@ -312,7 +321,7 @@ func TestVP_C35_storage_cursor(t *testing.T) {
 							t.Fatalf("ReadSnapshotWithTransactionsSinceTopology(%d,%d)[%d] differs from the model", offset, count, i)
 						}
 						for j, tx := range txs[i] {
-							if tx == nil || tx.PayloadHash() != w.Txs[j] {
+							if tx == nil || tx.PayloadHash() != w.Txs[j] || snaps[i].Transactions[j] != w.Txs[j] {
 								t.Fatalf("transaction %d of snapshot at %d differs", j, w.Pos)
 							}
 						}
